@@ -1956,3 +1956,42 @@ def audit_find_sample_size_unbounded(S, I, variant):
     m0, m1 = (specs[k]["RMX"].at(iterm(specs[k]["NA"])) for k in ("c0", "c1"))
     S.holds("without style information the audit's estimate is the largest contest estimate",
             icmp("==", r, iite(icmp(">=", m0, m1), iterm(m0), iterm(m1))))
+
+
+@script(["C16"], "Contest.find_sample_size/post (bounded: 0-3 assertions; symbolic estimates)", variants=(("n0",), ("n1",), ("n2",), ("n3",)))
+def contest_find_sample_size_post(S, I, variant):
+    """a contest's estimate is the largest among its assertions' estimates (0 without assertions); every assertion is asked with the
+    audit's simulation settings and, when a sample is supplied, with its own data"""
+    n = int(variant[0][1:])
+    c = ctx()
+    Asn = I.get(MOD, "Assertion")
+    con = mk_contest(I, id="con", risk_limit=XR.const(Fraction(1, 20)), cards=100, candidates=["A", "B"], winner=["A"], audit_type="CARD_COMPARISON")
+    est = [S.integer(f"estimate_{j}", lo=0) for j in range(n)]
+    calls = []
+    tokens = [FStr(["data", SInt(z3.IntVal(j))]) for j in range(n)]
+    asns = {}
+    for j in range(n):
+        a = Obj(Asn, {"contest": con, "proved": False, "winner": "A", "loser": "B", "margin": XR.const(Fraction(1, 10))})
+        a.attrs["find_sample_size"] = Builtin("abstract_find_sample_size", (lambda j: (lambda I_, a_, k: (calls.append((j, dict(k), list(a_))), est[j])[1]))(j))
+        a.attrs["mvrs_to_data"] = Builtin("abstract_mvrs_to_data", (lambda j: (lambda I_, a_, k: (tokens[j], XR.const(1))))(j))
+        asns[f"a{j}"] = a
+    con.attrs["assertions"] = asns
+    audit = Obj(I.get(MOD, "Audit"), {"reps": S.choose("reps", [None, 5]), "quantile": S.real("quantile", lo_strict=0, hi_strict=1),
+                                      "sim_seed": S.integer("seed", lo=0), "error_rate_1": S.real("rate_1", lo=0, hi=1),
+                                      "error_rate_2": S.real("rate_2", lo=0, hi=1)})
+    with_sample = S.choose("sample_supplied", [True, False])
+    mv = [sym_cvr(I, "mvr0", {"con": ["A", "B"]})] if with_sample else None
+    r, exc = guard(S, I, lambda: I.call(I.getattr(con, "find_sample_size"), [], {"audit": audit, "mvr_sample": mv, "cvr_sample": (list(mv) if mv else None)}))
+    if exc:
+        return
+    best = 0
+    for j in range(n):
+        best = mkint(iite(icmp(">", est[j], best), iterm(est[j]), iterm(best)))
+    S.holds("the contest's estimate = the largest estimate among its assertions (0 if it has none), returned and recorded",
+            band(icmp("==", r, best), icmp("==", con.attrs["sample_size"], best)))
+    S.holds("every assertion is asked exactly once", sorted(j for j, _, _ in calls) == list(range(n)))
+    for j, kw, pos in calls:
+        S.holds(f"[a{j}] asked with the audit's rates, repetitions, quantile and seed, and with its own data when a sample is supplied",
+                not pos and kw.get("rate_1") is audit.attrs["error_rate_1"] and kw.get("rate_2") is audit.attrs["error_rate_2"]
+                and kw.get("reps") is audit.attrs["reps"] and kw.get("quantile") is audit.attrs["quantile"] and kw.get("seed") is audit.attrs["sim_seed"]
+                and (kw.get("data") is tokens[j] if with_sample else kw.get("data") is None))
